@@ -113,7 +113,7 @@ func runWrap(c WrapCase, plain bool) (*wrapExec, error) {
 			for i := 0; i < c.Pre.Calls; i++ {
 				// the caller goes on after a reader fault and stops at
 				// io.EOF
-				if _, err := wp.Parse(&b, 0); err != nil && err != errScript {
+				if _, err := wp.Parse(&b, 0); err != nil && !isReaderFault(err) {
 					break
 				}
 			}
@@ -234,8 +234,19 @@ func runWrap(c WrapCase, plain bool) (*wrapExec, error) {
 			if x.eofs > c.Tail {
 				return x, nil
 			}
-		case perr == errScript:
+		case isReaderFault(perr):
 			x.faults++
+			if sr != nil {
+				known := false
+				for _, e := range sr.produced {
+					if e == perr {
+						known = true
+					}
+				}
+				if !known {
+					x.report("C08", "call %d: Parse returned %s, which is none of the errors the reader has returned (%d faults so far)", x.calls, errName(perr), len(sr.produced))
+				}
+			}
 			// every reader error surfaced must be one the reader of this
 			// stream has produced (a fault that came with data may be
 			// swallowed, so fewer is legal; more is not)
@@ -395,7 +406,7 @@ func checkWrap(prop string, c WrapCase, differential bool) (msg string, bad bool
 
 func scriptHasFaults(r ReaderScript) bool {
 	for _, e := range r.Events {
-		if e.Err == "E" {
+		if readerFaultErrs[e.Err] != nil {
 			return true
 		}
 	}
